@@ -276,6 +276,55 @@ def thm_errors():
     ensures(expect_raises(ValueError, fs5.map, lambda i: i, files=files, worker_type="fiber"), id="unknown worker type -> ValueError")
 
 
+# ------------------------------------------------------------------ bundled file lists and the output-writing branch of the wrapper
+class Out:
+    """ghost output fileset: a name is ('out', times, fill); writes are recorded in order"""
+
+    def __init__(self):
+        self.written = []
+
+    def get_filename(self, times, fill=None):
+        return ("out", tuple(times), tuple(sorted((fill or {}).items())))
+
+    def write(self, data, filename, in_background=False, **kw):
+        self.written.append((filename, data))
+
+
+Out.get_filename.__pyvc_thm__ = True
+Out.write.__pyvc_thm__ = True
+
+
+@theorem(P, "bundles-and-output")
+def thm_bundles():
+    for k in range(0, 8 if _THOROUGH else 6):
+        files = _files(k)
+        for b in (1, 2, 3):
+            bundles = [files[i:i + b] for i in range(0, k, b)]
+            fs = _fileset()
+            res = fs.map(lambda contents, infos: ([c[1] for c in contents], [i.path for i in infos]), files=bundles, on_content=True,
+                         pass_info=True, worker_type="thread", max_workers=2)
+            ensures(res == [([f.path for f in bb], [f.path for f in bb]) for bb in bundles],
+                    id="map over bundles: one result per bundle, in order, each with the contents and infos of its files [%d files, bundles of %d]" % (k, b))
+            ensures(fs.handler.reads == [f.path for f in files], id="every file of every bundle is read exactly once [%d files, bundles of %d]" % (k, b))
+            out2 = list(fs.imap(lambda infos: [i.path for i in infos], files=bundles, worker_type="thread", max_workers=2))
+            ensures(out2 == [[f.path for f in bb] for bb in bundles], id="imap over bundles yields the same sequence [%d files, bundles of %d]" % (k, b))
+    for k in range(0, 5):
+        files = _files(k)
+        fs, out = _fileset(), Out()
+        res = fs.map(lambda c, info: None if info.attr["n"] == 1 else ("new", c[1]), files=files, on_content=True, pass_info=True,
+                     output=out, return_info=True, worker_type="thread")
+        ensures([r[0] for r in res] == files and [r[1] for r in res] == [f.attr["n"] != 1 for f in files],
+                id="map(output=...): True for a written file, False when the function returned None [%d files]" % k)
+        ensures(out.written == [(("out", tuple(f.times), (("n", f.attr["n"]),)), ("new", f.path)) for f in files if f.attr["n"] != 1],
+                id="each result is written once, under the name of its own file's times and attributes, in file order [%d files]" % k)
+        bundles = [files[i:i + 2] for i in range(0, k, 2)]
+        fs2, out2 = _fileset(), Out()
+        res2 = fs2.map(lambda infos: tuple(i.path for i in infos), files=bundles, output=out2, worker_type="thread")
+        ensures(res2 == [True for _ in bundles], id="map(output=...) over bundles: one flag per bundle [%d files]" % k)
+        ensures(out2.written == [(("out", (bb[0].times[0], bb[-1].times[1]), (("n", bb[0].attr["n"]),)), tuple(f.path for f in bb)) for bb in bundles],
+                id="a bundle's result is written under the span from its earliest start to its latest end [%d files]" % k)
+
+
 @theorem(P, "collect")
 def thm_collect():
     for k in range(0, 5):
